@@ -228,6 +228,11 @@ def runRestLine (r : Report) (sec : Nat) (l : Line) (gated : Bool) (eng : Option
     | some c =>
       r := r.addCover (pfx ++ c.branch)
       if timer then r := r.addCover (pfx ++ "real-timer")
+      let panicked := c.log.any (fun x => match x with | .panicked _ => true | _ => false)
+      if panicked && c.branch = "timeout-branch" then r := r.addCover "panic-after-timeout-branch-swallowed"
+      if panicked && c.branch = "panic-branch" then r := r.addCover "panic-before-timeout-reraised"
+      if c.log.any (fun x => x == .panicked 999999) then r := r.addCover "panic-ErrAbortHandler"
+      if panicked && c.branch = "panic-branch" && kind.isSome then r := r.addCover "panic-then-expiry-harmless"
       if !gated then r := r.addCover s!"race-expiry-at-{((candsOf false).findIdx? (fun c => c.render gated = impl)).getD 0}"
       if Spec.hasFlush script && wrapped then
         let f := (candsOf false).any (fun c => c.render gated = impl)
@@ -251,7 +256,7 @@ def runRestLine (r : Report) (sec : Nat) (l : Line) (gated : Bool) (eng : Option
                               sret := sret, atRet := atRet, final := final, results := results }
         for e in Spec.check reasonBytes o do
           r := r.violation sec l.idx s!"{e}: op=[{joinSp l.op}] impl=[{impl}]"
-          if e.startsWith "[known-class" then r := r.addCover ((e.splitOn "]").headD "" ++ "]")
+          if e.startsWith "[known-class " then r := r.addCover ("known-" ++ (((e.splitOn "]").headD "").splitOn " ").getLastD "")
         if atRet = Spec.timeout reasonBytes .deadline then r := r.addCover "saw-503"
         if atRet = Spec.timeout reasonBytes .canceled then r := r.addCover "saw-499"
         if results.any (· == .errTimeout) then r := r.addCover "saw-ErrHandlerTimeout"
